@@ -61,6 +61,8 @@ var c13Menu = map[string]c13Item{
 	"retcon": {Name: "retcon", SQL: "INSERT INTO t(id, v) VALUES(1, 'rc') RETURNING id", FQ: true, class: "constraint-violation", kind: 'r'},
 	"rete":   {Name: "rete", SQL: "INSERT INTO t(v) SELECT 'e'||(MAX(id)+1) FROM t RETURNING id", class: "returning", kind: 'i'},
 	"sel":    {Name: "sel", SQL: "SELECT count(*), COALESCE(SUM(n), 0), COALESCE(MAX(v), '') FROM t", class: "select", kind: 's'},
+	// prepares, then fails when executed because its parameter is not supplied
+	"parm": {Name: "parm", SQL: "INSERT INTO t(v) VALUES(?)", class: "missing-parameter", kind: 'i'},
 	// a read-only statement that prepares and then fails when stepped
 	"selfail": {Name: "selfail", SQL: "SELECT abs(-9223372036854775808)", class: "failing-select", kind: 's'},
 	"empty":   {Name: "empty", SQL: "", class: "empty"},
@@ -884,12 +886,13 @@ func TestVerif_C13(t *testing.T) {
 		return
 	}
 	full := []string{"ins", "insx", "upd", "syn", "notab", "conpk", "ret", "retcon", "sel", "selfail", "empty", "ws"}
-	wide := append(append([]string{}, full...), "connn", "conuq", "multi", "rete")
+	wide := append(append([]string{}, full...), "connn", "conuq", "multi", "rete", "parm")
+	core5 := []string{"ins", "insx", "upd", "syn", "notab", "conpk", "ret", "sel"}
+	tiny := []string{"ins", "upd", "syn", "conpk", "sel"}
 	core := []string{"ins", "insx", "upd", "syn", "conpk", "sel"}
-	tiny := []string{"ins", "syn", "conpk", "sel"}
 	stages := []c13Stage{{full, 1, 3}, {core, 4, 4}}
 	if r.Thorough() {
-		stages = []c13Stage{{wide, 1, 3}, {full, 4, 4}, {core, 5, 5}, {tiny, 6, 6}}
+		stages = []c13Stage{{wide, 1, 3}, {full, 4, 4}, {core5, 5, 5}, {tiny, 6, 6}}
 	}
 	freshLen := r.Pick(1, 2)
 	r.Rule(fmt.Sprintf("%s; each x transaction flag x rollback-on-error flag x {db.Execute, db.Request}, each on a WAL-mode database file holding one seed row (requests of <=%d statements: a brand-new file per case; longer: reset to the seed state by a checked DELETE+INSERT transaction after the previous case's closing COMMIT, spot-verified by a dump, new file every %d cases); oracle = shadow SQLite database driven statement by statement with explicit BEGIN/COMMIT/ROLLBACK under the rule of the statement (whitespace-only statement: result optional; failure outside a transaction: stopping or continuing both allowed); distinct = distinct (path, flags, result list, final table) observations", c13Stages(stages), freshLen, c13FreshEvery))
